@@ -64,6 +64,12 @@ func NewGzipResponseWriter(w http.ResponseWriter, contentTypes *regexp.Regexp) *
 }
 
 func (grw *GzipResponseWriter) WriteHeader(code int) {
+	// an informational response (1xx) is not the final response: its headers say
+	// nothing about the body that follows, so it must not decide about compression
+	if code >= 100 && code <= 199 {
+		grw.ResponseWriter.WriteHeader(code)
+		return
+	}
 	if grw.writer == nil {
 		if isCompressable(grw.Header(), grw.contentTypes) {
 			grw.Header().Del(headerContentLength)
